@@ -72,7 +72,7 @@ def multiplier_case(case, ctx):
 
     def close(a, b, clause):
         require(tuple(a.shape) == tuple(b.shape), clause + "-shape", lambda: "%s vs %s" % (tuple(a.shape), tuple(b.shape)))
-        if not torch.allclose(a, b, rtol=1e-8, atol=1e-10):
+        if not torch.allclose(a.double(), b.double(), rtol=1e-8, atol=1e-10):
             d = (a - b).abs()
             k = int(d.argmax())
             raise Violation(clause, "%s: max |diff| %.3g (got %r, oracle %r)" % (desc(), d.max().item(), a.flatten()[k].item(), b.flatten()[k].item()))
@@ -118,7 +118,8 @@ def affine_case(case, ctx):
     want = ((X[:, None] - R) * W[None, None]).sum(dim=2).mean(dim=1)[:, None] * X       # (n, 4, L)
     kw = dict(target=t, batch_size=case["batch_size"], device="cpu", references=R)
     att = sut(deep_lift_shap, model, X, **kw)
-    require(torch.allclose(att, want, rtol=1e-9, atol=1e-11), "affine-attribution-closed-form",
+    require(att.dtype == torch.float64, "result-dtype", lambda: "float64 model and input gave %s" % att.dtype)
+    require(tuple(att.shape) == tuple(want.shape) and torch.allclose(att.double(), want, rtol=1e-9, atol=1e-11), "affine-attribution-closed-form",
             lambda: "max |diff| %.3g" % (att - want).abs().max().item())
     # re-draw every bias: attributions must not move
     g = torch.Generator().manual_seed(case["seed"] + 17)
@@ -127,7 +128,7 @@ def affine_case(case, ctx):
             if getattr(mod, "bias", None) is not None:
                 mod.bias.copy_(torch.randn(mod.bias.shape, generator=g, dtype=torch.float64) * 5)
     att2 = sut(deep_lift_shap, model, X, **kw)
-    require(torch.allclose(att2, att, rtol=1e-9, atol=1e-11), "affine-attribution-depends-on-bias",
+    require(torch.allclose(att2.double(), att.double(), rtol=1e-9, atol=1e-11), "affine-attribution-depends-on-bias",
             lambda: "max |diff| %.3g" % (att2 - att).abs().max().item())
     ctx.nt((want.abs() > 1e-12).any().item())
 
